@@ -42,6 +42,7 @@ structure ACert where
   bridges : List Ev
   claims : List Ev
   status : St
+  opt : Bool := false        -- certificate type in the metadata: optimistic (aggchain-prover flow in optimistic mode)
   deriving Repr, DecidableEq
 
 /-- a row of `certificate_info` -/
@@ -55,6 +56,7 @@ structure Row where
   prev : Option Nat
   new : Nat
   hasProof : Bool := false   -- an aggchain proof is stored with the record (aggchain-prover flow, locally built records)
+  opt : Bool := false        -- `cert_type` = optimistic
   deriving Repr, DecidableEq
 
 /-- what the next call to the aggchain prover does: proves the requested range minus `cut` blocks, fails, or has no proof yet -/
@@ -82,6 +84,7 @@ structure Sys where
   failSub : Bool := false     -- next SubmitCertificate fails (and is not applied)
   failRec : Bool := false     -- next GetLatest…CertificateHeader fails
   prover : Prover := .ok 0    -- behaviour of the next prover call
+  optOn : Bool := false       -- what `IsOptimisticModeOn` answers (the rollup contract's flag)
   deriving Repr
 
 /-! ### storage -/
@@ -219,10 +222,12 @@ def proveAndBuild (loc : List Row) (last : Option Row) (p : Params) (retry : Nat
       | some q => (finishFEP loc last q retry, .ok 0)
 
 /-- `AggchainProverFlow.GetCertificateBuildParams` + `BuildCertificate` -/
-def buildFEP (size : Params → Nat) (cfg : Cfg) (l2 : List L2Blk) (loc : List Row) (prover : Prover) : Build × Prover :=
+def buildFEP (size : Params → Nat) (cfg : Cfg) (l2 : List L2Blk) (loc : List Row) (prover : Prover) (optOn : Bool := false) :
+    Build × Prover :=
   let last := lastRow loc
+  -- "resend the exact same certificate" only when the type to generate now is the type of the one in error
   let retryOf : Option Row := match last with
-    | some r => if r.status = .inError then some r else Option.none
+    | some r => if r.status = .inError ∧ r.opt = optOn then some r else Option.none
     | Option.none => Option.none
   match retryOf with
   | some r =>
@@ -237,7 +242,7 @@ def buildFEP (size : Params → Nat) (cfg : Cfg) (l2 : List L2Blk) (loc : List R
     if prevTo ≥ lp then (.none, prover)
     else
       let f := prevTo + 1
-      let full : Params := { from_ := f, to_ := lp, bridges := bridgesIn l2 f lp, claims := claimsIn l2 f lp, fep := true,
+      let full : Params := { from_ := f, to_ := lp, bridges := bridgesIn l2 f lp, claims := claimsIn l2 f lp, fep := !optOn,   -- `EstimatedSize` counts the proof only for the FEP type
                              retry := decide (retry > 0) && last.isSome }
       match limitCertSize size cfg.maxSize full with
       | Option.none => (.err, prover)
@@ -247,7 +252,12 @@ def buildFEP (size : Params → Nat) (cfg : Cfg) (l2 : List L2Blk) (loc : List R
 
 def rowOfCert (c : ACert) (retry toBlock : Nat) (hasProof : Bool := false) : Row :=
   { height := c.height, id := c.id, status := .pending, from_ := c.from_, to_ := toBlock, retry := retry,
-    prev := some c.prev, new := c.new, hasProof := hasProof }
+    prev := some c.prev, new := c.new, hasProof := hasProof, opt := c.opt }
+
+/-- the certificate type goes into the metadata (and from there into the record) -/
+def markOpt (optOn : Bool) : Build → Build
+  | .cert c r t => .cert { c with opt := optOn } r t
+  | b => b
 
 inductive SendOut where
   | none | err
@@ -256,7 +266,10 @@ inductive SendOut where
 
 /-- `sendCertificate`; with `crash` the process dies between the submission and the local write -/
 def buildAny (size : Params → Nat) (s : Sys) : Build × Prover :=
-  if s.cfg.fep then buildFEP size s.cfg s.l2 s.loc s.prover else (build size s.cfg s.l2 s.loc, s.prover)
+  if s.cfg.fep then
+    let r := buildFEP size s.cfg s.l2 s.loc s.prover s.optOn
+    (markOpt s.optOn r.1, r.2)
+  else (build size s.cfg s.l2 s.loc, s.prover)
 
 /-- the second half of `sendCertificate`: submit what was built, then record it -/
 def sendCore (s : Sys) (b : Build) (crash : Bool) : Sys × SendOut :=
@@ -356,7 +369,7 @@ def process (settled pending : Option ACert) (loc : Option Row) : Option Action 
 /-- `newCertificateInfoFromAgglayerCertHeader` (block range from the metadata) -/
 def rowOfHeader (omitPrev : Bool) (c : ACert) (retry : Nat := 0) : Row :=
   { height := c.height, id := c.id, status := c.status, from_ := c.from_, to_ := c.to_, retry := retry,
-    prev := if omitPrev then none else some c.prev, new := c.new }
+    prev := if omitPrev then none else some c.prev, new := c.new, opt := c.opt }
 
 /-- `Start` up to the send loop: one pass of `CheckInitialStatus`; on an error the node is not up -/
 def restart (s : Sys) : Sys × Bool :=
@@ -390,6 +403,7 @@ inductive Op where
   | move (id : Nat) (st : St)
   | failHdr | failSub | failRec
   | prover (p : Prover)
+  | opt (on : Bool)   -- the rollup contract's optimistic-mode flag changes
   | crash
   | losedb
   | restart
@@ -405,6 +419,7 @@ def step (size : Params → Nat) (s : Sys) : Op → Sys
   | .failSub => { s with failSub := true }
   | .failRec => { s with failRec := true }
   | .prover p => { s with prover := p }
+  | .opt b => { s with optOn := b }
   | .crash => { s with up := false }
   | .losedb => { s with up := false, loc := [] }
   | .restart => ({ (restart s).1 with failRec := false, failHdr := false })
